@@ -89,6 +89,12 @@ def rand_rules(rng, R, nN=3, V=("a", "b"), nrules=5, maxbody=3, shape="any", dup
             if rng.random() < 0.3:
                 rules.append((rng.choice(ws), x, ()))
         rules.append((rng.choice(ws), ring[0], (rng.choice(list(V)),)))
+        # the cycle is entered behind a terminal, through different members (so that the start symbol's own
+        # left-corner closure does not contain it and different queries enter it at different points)
+        outside = [x for x in Ns if x not in ring] or [Ns[0]]
+        for x in ring:
+            if rng.random() < 0.7:
+                rules.append((rng.choice(ws), rng.choice(outside), (rng.choice(list(V)), x) + ((rng.choice(list(V)),) if rng.random() < 0.5 else ())))
         rng.shuffle(rules)
     # exact duplicates (same weight, head and body) are part of several properties' quantifiers
     while rules and rng.random() < dup:
